@@ -43,62 +43,109 @@ func ruleShufflePerm(c *Ctx) {
 	if input == nil {
 		anchorFail("innerShuffleList: slice parameter not found")
 	}
-	// (a) writes
+	// (a) writes: in innerShuffleList and in any unexported function of the package the list is handed to, the list is
+	// written by two-element swaps of its own elements only, and is handed to nothing else
 	swaps, bad := 0, 0
-	ast.Inspect(fd.Body, func(n ast.Node) bool {
-		as, ok := n.(*ast.AssignStmt)
-		if !ok {
-			return true
-		}
-		touches := false
-		for _, l := range as.Lhs {
-			if mentions(info, l, input) {
-				touches = true
+	type lstFn struct {
+		fd  *ast.FuncDecl
+		obj types.Object
+	}
+	work := []lstFn{{fd, input}}
+	seenFn := map[*ast.FuncDecl]bool{fd: true}
+	var helperCalls []*ast.FuncDecl // helpers that received the list, once per call
+	for len(work) > 0 {
+		cur := work[0]
+		work = work[1:]
+		ast.Inspect(cur.fd.Body, func(n ast.Node) bool {
+			as, ok := n.(*ast.AssignStmt)
+			if !ok {
+				return true
 			}
-		}
-		if !touches {
-			return true
-		}
-		// must be input[a], input[b] = input[b], input[a]
-		isSwap := len(as.Lhs) == 2 && len(as.Rhs) == 2 && as.Tok == token.ASSIGN &&
-			types.ExprString(as.Lhs[0]) == types.ExprString(as.Rhs[1]) && types.ExprString(as.Lhs[1]) == types.ExprString(as.Rhs[0])
-		if isSwap {
+			touches := false
 			for _, l := range as.Lhs {
-				ix, ok := ast.Unparen(l).(*ast.IndexExpr)
-				if !ok {
-					isSwap = false
-					continue
-				}
-				if id, ok := ast.Unparen(ix.X).(*ast.Ident); !ok || info.Uses[id] != input {
-					isSwap = false
+				if mentions(info, l, cur.obj) {
+					touches = true
 				}
 			}
-		}
-		if isSwap {
-			swaps++
-		} else {
-			bad++
-			c.bad("innerShuffleList.write", as.Pos(), "the list is written by `%s`, which is not a two-element swap: an element can be lost or duplicated", nodeString(c.P.Fset, as))
-		}
-		return true
-	})
-	// no append / reslice passing the list on
-	ast.Inspect(fd.Body, func(n ast.Node) bool {
-		if call, ok := n.(*ast.CallExpr); ok {
-			for _, a := range call.Args {
-				if id, ok := ast.Unparen(a).(*ast.Ident); ok && info.Uses[id] == input {
-					if fid, ok := call.Fun.(*ast.Ident); ok && fid.Name == "len" {
+			if !touches {
+				return true
+			}
+			// must be input[a], input[b] = input[b], input[a]
+			isSwap := len(as.Lhs) == 2 && len(as.Rhs) == 2 && as.Tok == token.ASSIGN &&
+				types.ExprString(as.Lhs[0]) == types.ExprString(as.Rhs[1]) && types.ExprString(as.Lhs[1]) == types.ExprString(as.Rhs[0])
+			if isSwap {
+				for _, l := range as.Lhs {
+					ix, ok := ast.Unparen(l).(*ast.IndexExpr)
+					if !ok {
+						isSwap = false
 						continue
 					}
-					bad++
-					c.bad("innerShuffleList.escape", call.Pos(), "the list is handed to %s inside the shuffle", types.ExprString(call.Fun))
+					if id, ok := ast.Unparen(ix.X).(*ast.Ident); !ok || info.Uses[id] != cur.obj {
+						isSwap = false
+					}
 				}
 			}
-		}
-		return true
-	})
+			if isSwap {
+				swaps++
+			} else {
+				bad++
+				c.bad("innerShuffleList.write", as.Pos(), "the list is written by `%s`, which is not a two-element swap: an element can be lost or duplicated", nodeString(c.P.Fset, as))
+			}
+			return true
+		})
+		// no append / reslice passing the list on — except to an unexported function of the package, which is then
+		// held to the same rules
+		ast.Inspect(cur.fd.Body, func(n ast.Node) bool {
+			call, ok := n.(*ast.CallExpr)
+			if !ok {
+				return true
+			}
+			for ai, a := range call.Args {
+				id, ok := ast.Unparen(a).(*ast.Ident)
+				if !ok || info.Uses[id] != cur.obj {
+					continue
+				}
+				if fid, ok := call.Fun.(*ast.Ident); ok && fid.Name == "len" {
+					continue
+				}
+				if f := calleeFunc(info, call); f != nil && !f.Exported() && f.Pkg() == pk.Types {
+					var hd *ast.FuncDecl
+					c.P.funcDecls(func(p2 *packages.Package, f2 *ast.FuncDecl) {
+						if p2 == pk && f2.Body != nil && p2.TypesInfo.Defs[f2.Name] == f {
+							hd = f2
+						}
+					})
+					if hd != nil {
+						k := 0
+						var pobj types.Object
+						for _, fl := range hd.Type.Params.List {
+							for _, nm := range fl.Names {
+								if k == ai {
+									pobj = info.Defs[nm]
+								}
+								k++
+							}
+						}
+						if pobj != nil {
+							helperCalls = append(helperCalls, hd)
+							if !seenFn[hd] {
+								seenFn[hd] = true
+								work = append(work, lstFn{hd, pobj})
+							}
+							continue
+						}
+					}
+				}
+				bad++
+				c.bad("innerShuffleList.escape", call.Pos(), "the list is handed to %s inside the shuffle", types.ExprString(call.Fun))
+			}
+			return true
+		})
+	}
 	if bad == 0 && swaps >= 2 {
 		c.ok("innerShuffleList.write", fd.Pos(), "%d write sites, all two-element swaps of the list's own elements", swaps)
+	} else if bad == 0 && swaps == 1 && len(helperCalls) == 2 && helperCalls[0] == helperCalls[1] {
+		c.ok("innerShuffleList.write", fd.Pos(), "one swap site in %s, used for both segments", helperCalls[0].Name.Name)
 	} else if swaps < 2 && bad == 0 {
 		c.unm("innerShuffleList.write", fd.Pos(), "expected two swap sites, found %d", swaps)
 	}
@@ -110,7 +157,12 @@ func ruleShufflePerm(c *Ctx) {
 		}
 		return true
 	})
-	if len(loops) != 2 {
+	if len(loops) == 0 && len(helperCalls) == 2 && helperCalls[0] == helperCalls[1] {
+		// one function does the pairs of a segment and is called for both segments: they cannot be treated differently
+		c.ok("innerShuffleList.mirror", fd.Pos(), "both segments are handled by %s", helperCalls[0].Name.Name)
+		c.ok("innerShuffleList.prelude1", fd.Pos(), "set-up is part of %s (its own parameters only)", helperCalls[0].Name.Name)
+		c.ok("innerShuffleList.prelude2", fd.Pos(), "set-up is part of %s (its own parameters only)", helperCalls[0].Name.Name)
+	} else if len(loops) != 2 {
 		c.unm("innerShuffleList.mirror", fd.Pos(), "expected the two pair loops, found %d", len(loops))
 	} else {
 		strip := func(b *ast.BlockStmt) string {
